@@ -17,6 +17,8 @@
 //   C04 pbvi <pomdp> nB <belief>* h | <vf>              PBVI(nB, h, 0)(model, beliefs): whole run vs the Lean model pbviRun
 //   C04 pbviw <pomdp> explicit nB <belief>* h | <vf v0> | <vf>   PBVI warm start: operator()(model, beliefs, v0) (explicit=1, vs pbviRunFrom)
 //                                                        or operator()(model, v0) (explicit=0, clauses only)
+//   C04 ip <pomdp> <vlist prev> | <vlist level> | walked nCalls {<vlist in> <vlist out>}*   one IncrementalPruning timestep vs ipStep,
+//                                                        the Pruner's answers (logged along the library's own loop) as the oracle
 //   C04 mk S A O | <vf> | <vf>                          makeValueFunction(S) and Policy(S,A,O).getValueFunction() vs zeroVF
 //   the vf line carries a 4th section:  | ioStatus nQ {bIdx h a id pOK}*   sampleAction(b,h) / getActionProbability at EVERY stored
 //       horizon; ioStatus 1 = every Policy call of the line went through a Policy written to a stream and loaded back (2 = load failed)
@@ -506,6 +508,61 @@ static void emitPBVI(Rng & rng) {
     l << h << "|"; putVF(l, vf); l.emit();
 }
 
+// IncrementalPruning, one timestep at a time: the real run gives the levels; the answers the real Pruner gives along the way are
+// obtained by walking the same loop here with the library's own kernels (Projecter, Pruner, the private crossSum) in the same
+// order with ONE Pruner object, as the library does.  They are ORACLE answers for the Lean model `ipStep` (projection, pruning of
+// every projection list, the merge schedule with crossSum + prune at each merge, concatenation, final prune), which is then
+// compared with the real level.
+static void emitIP(Rng & rng) {
+    size_t S = 1 + rng.below(3), A = 1 + rng.below(3), O = 1 + rng.below(4);
+    unsigned h = 1 + (unsigned)rng.below(3);
+    if (rng.coin(1, 4)) { O = 5 + rng.below(3); S = std::min<size_t>(S, 2); }
+    if (O >= 4) h = std::min(h, 2u);
+    auto pt = randomPomdp(rng, S, A, O);
+    Model model = toDense(pt);
+    P::IncrementalPruning solver(h, 0.0);
+    auto vf = std::get<1>(solver(model));
+    AIToolbox::Pruner prune(S);
+    P::Projecter<Model> projecter(model);
+    for (size_t t = 1; t < vf.size(); ++t) {
+        std::vector<std::pair<P::VList, P::VList>> calls;
+        auto pruneLog = [&](P::VList & l) {
+            P::VList in = l;
+            l.erase(prune(std::begin(l), std::end(l), P::unwrap), std::end(l));
+            calls.emplace_back(std::move(in), l);
+        };
+        auto projs = projecter(vf[t - 1]);
+        P::VList w;
+        for (size_t a = 0; a < A; ++a) {
+            for (size_t o = 0; o < O; ++o) pruneLog(projs[a][o]);
+            bool oddOld = O % 2;
+            int i, front = 0, back = (int)O - oddOld, stepsize = 2, diff = 1, elements = (int)O;
+            while (elements > 1) {
+                for (i = front; i != back; i += stepsize) {
+                    projs[a][i] = solver.crossSum(projs[a][i], projs[a][i + diff], a, stepsize > 0);
+                    pruneLog(projs[a][i]);
+                    --elements;
+                }
+                const bool oddNew = elements % 2;
+                const int tmp = back;
+                back = front - (oddNew ? 0 : stepsize);
+                front = tmp - (oddOld ? 0 : stepsize);
+                stepsize *= -2; diff *= -2;
+                oddOld = oddNew;
+            }
+            w.insert(std::end(w), std::begin(projs[a][front]), std::end(projs[a][front]));
+        }
+        pruneLog(w);
+        bool walked = w.size() == vf[t].size();
+        for (size_t k = 0; walked && k < w.size(); ++k) walked = (w[k] == vf[t][k]);
+        Line l; l << "C04" << "ip"; putPomdp(l, pt); putVList(l, vf[t - 1]); l << "|"; putVList(l, vf[t]); l << "|";
+        l << walked << (size_t)calls.size();
+        for (auto & c : calls) { putVList(l, c.first); putVList(l, c.second); }
+        l.emit();
+        std::printf("#stat ip_calls:%zu 1\n#stat ip_O:%zu 1\n", std::min<size_t>(calls.size(), 40), O);
+    }
+}
+
 // PBVI warm start: operator()(model, beliefs, v0) / operator()(model, v0).  v0 is (0,1) what another solver returned
 // (consistent; PERSEUS' has a non-zero terminal list), (2) an ARBITRARY stack of lists (links may even be out of range:
 // PBVI must keep it verbatim and only read its last list), (3) a single non-zero terminal list with several entries.
@@ -568,7 +625,7 @@ void verif::verif_case(Rng & rng, long idx, const std::string & tier) {
         for (size_t nB : {2, 3, 20}) emitPERSEUSOn(regressingTables(), nB, 8, 7);
         return;
     }
-    if (idx >= 8 && idx < kFixed) { for (int k = 0; k < 12; ++k) { emitXD(rng); emitPR(rng); emitCS(rng); emitPJ(rng); emitPBVI(rng); emitWV(rng); emitPERSEUS(rng); emitLS(rng); emitPBVIW(rng); emitPBVIW(rng); emitMK(rng); } return; }
+    if (idx >= 8 && idx < kFixed) { for (int k = 0; k < 12; ++k) { emitXD(rng); emitPR(rng); emitCS(rng); emitPJ(rng); emitPBVI(rng); emitWV(rng); emitPERSEUS(rng); emitLS(rng); emitPBVIW(rng); emitPBVIW(rng); emitMK(rng); emitIP(rng); } return; }
     long r = idx - kFixed;
     int which = (int)(r % 6);
     size_t S = 2 + rng.below(3), A = 1 + rng.below(3), O = 1 + rng.below(3);
@@ -594,7 +651,7 @@ void verif::verif_case(Rng & rng, long idx, const std::string & tier) {
     }
     if (std::getenv("VERIF_DEBUG")) std::fprintf(stderr, "case %ld: %s S=%zu A=%zu O=%zu h=%u ugly=%d sparse=%d tol=%g\n", idx, kSolvers[which], S, A, O, h, (int)ugly, (int)sparse, tol);
     runSolver(rng, which, pt, h, tol, sparse, fewBeliefs);
-    if (r % 10 == 0) { emitXD(rng); emitPR(rng); emitCS(rng); emitPJ(rng); emitPBVI(rng); emitWV(rng); emitPERSEUS(rng); emitPERSEUS(rng); emitLS(rng); emitPBVIW(rng); emitPBVIW(rng); }
+    if (r % 10 == 0) { emitXD(rng); emitPR(rng); emitCS(rng); emitPJ(rng); emitPBVI(rng); emitWV(rng); emitPERSEUS(rng); emitPERSEUS(rng); emitLS(rng); emitPBVIW(rng); emitPBVIW(rng); emitIP(rng); }
 }
 
 VERIF_MAIN
